@@ -576,7 +576,7 @@ def cli_case(args):
         want = set(m["syms"])
         i = lst.find(" ADDRESS  SCOPE")
         rows = 0
-        if i >= 0:
+        if i >= 0 and m["pools"] == 1:     # multi-pool: rows after pool 1 are S12 garbage (keyed via ELF/sanitizer)
             for ln in lst[i:].split("\n")[1:]:
                 if ln.startswith(" -> Total"):
                     break
